@@ -110,7 +110,17 @@ def one_crash_point(prog, nv, optimize, cp):
         if not crashed:
             return dict(skip="crash point beyond the end")
         plan1 = export_plan(cb1.dag)
+        # zarr writes the chunks of one block concurrently on its IO loop: a write that was in flight when the injected crash
+        # propagated may still land (in this process it is not killed).  That is the same as crashing a little later, so the
+        # storage is inspected once it is quiescent.
+        import time
         pre = storage_state(plan1)
+        for _ in range(50):
+            time.sleep(0.02)
+            again = storage_state(plan1)
+            if {k: v["keys"] for k, v in again.items()} == {k: v["keys"] for k, v in pre.items()}:
+                break
+            pre = again
         structured = any(a.get("nfields") for a in plan1["arrays"])
         # ---- resume
         s.events(clear=True)
